@@ -214,7 +214,25 @@ pub fn abs_world_full(
       Sx::opt(Some(Sx::L(items)))
     }
   };
-  Sx::L(vec![Sx::L(resps), Sx::L(reloads), classes, files, https, lock_sx, Sx::A(max_redirects as u64), npm_sx])
+  let wasm_ext = Sx::atoms(
+    it.specs
+      .iter()
+      .filter(|(s, _)| ModuleSpecifier::parse(s).map(|u| MediaType::from_specifier(&u) == MediaType::Wasm).unwrap_or(false))
+      .map(|(_, id)| *id),
+  );
+  // WebAssembly modules with an empty generated declaration text, by final specifier
+  let mut nodts = vec![];
+  for (spec, pm) in parsed.iter().chain(parsed_reload.iter()) {
+    if let Ok(Module::Wasm(w)) = &pm.result {
+      if w.source_dts.is_empty() {
+        let f = world.final_specifiers.get(spec).cloned().unwrap_or_else(|| spec.clone());
+        nodts.push(it.spec(&f));
+      }
+    }
+  }
+  nodts.sort();
+  nodts.dedup();
+  Sx::L(vec![Sx::L(resps), Sx::L(reloads), classes, files, https, lock_sx, Sx::A(max_redirects as u64), npm_sx, wasm_ext, Sx::atoms(nodts)])
 }
 
 fn abs_ref(r: Option<&Range>, it: &mut Intern) -> Sx {
@@ -245,6 +263,9 @@ pub fn abs_berr(e: &ModuleError, it: &mut Intern) -> Sx {
       } else {
         Sx::L(vec![Sx::A(1), Sx::A(it.spec(specifier.as_str())), abs_ref(maybe_referrer.as_ref(), it), Sx::A(k)])
       }
+    }
+    ModuleErrorKind::UnsupportedModuleTypeForSourcePhaseImport { specifier, referrer, .. } => {
+      Sx::L(vec![Sx::A(9), Sx::A(it.spec(specifier.as_str())), Sx::A(it.misc(&range_str(referrer)))])
     }
     ModuleErrorKind::Parse { specifier, .. } => Sx::L(vec![Sx::A(2), Sx::A(it.spec(specifier.as_str()))]),
     ModuleErrorKind::WasmParse { specifier, .. } => Sx::L(vec![Sx::A(3), Sx::A(it.spec(specifier.as_str()))]),
